@@ -34,6 +34,29 @@ class cm:
     def __exit__(self, *exc):
         t(self.k + 1)
         return False
+class quiet(cm):
+    def __exit__(self, *exc):
+        t(self.k + 1)
+        return exc[0] is not None and issubclass(exc[0], (ValueError, AssertionError))
+def helper_if(c):
+    if c:
+        t(91)
+        return 1
+    else:
+        t(92)
+        return 0
+def helper_try(c):
+    try:
+        t(93)
+        return 1
+    finally:
+        t(94)
+def helper_with(c):
+    with cm(95):
+        return t(97)
+def helper_raise(c):
+    t(98)
+    raise ValueError('h')
 '''
 CONDS = ["True", "False", "0", "1", "c1", "not c1", "c2", "t(7)", "not t(8)", "c1 and c2", "None", "[]", "'a'"]
 VALUATIONS = [dict(c1=a, c2=b, c3=c, it=list(i)) for a in (False, True) for b in (False, True) for c in (False, True) for i in ([], [1], [1, 2])]
@@ -101,6 +124,9 @@ class Gen:
         if kind == "with":
             self.k += 2
             return [f"with cm({self.k - 1}):"] + self.block(body)
+        if kind == "with_quiet":  # a context manager that swallows ValueError / AssertionError (like contextlib.suppress)
+            self.k += 2
+            return [f"with quiet({self.k - 1}):"] + self.block(body)
         if kind == "try_except":
             out = ["try:"] + self.block(body) + ["except ValueError:"] + self.block(orelse if orelse is not None else [self.probe()])
             return out
@@ -162,6 +188,8 @@ def enumerated_shapes():
             add(f"for in {it}: probe; [{spec[0]}]", lambda g, spec=spec, it=it: g.compound("for", it, [g.probe()] + inner(g, spec, True)))
             add(f"for in {it}: [{spec[0]}] else: probe", lambda g, spec=spec, it=it: g.compound("for", it, inner(g, spec, True), [g.probe()]))
         add(f"with: [{spec[0]}]", lambda g, spec=spec: g.compound("with", None, inner(g, spec, False)))
+        add(f"with quiet: [{spec[0]}]", lambda g, spec=spec: g.compound("with_quiet", None, inner(g, spec, False)))
+        add(f"with quiet: probe; [{spec[0]}]", lambda g, spec=spec: g.compound("with_quiet", None, [g.probe()] + inner(g, spec, False)))
         add(f"try: [{spec[0]}] except", lambda g, spec=spec: g.compound("try_except", None, inner(g, spec, False)))
         add(f"try: [{spec[0]}] finally", lambda g, spec=spec: g.compound("try_finally", None, inner(g, spec, False)))
         add(f"try: probe finally: [{spec[0]}]", lambda g, spec=spec: g.compound("try_finally", None, [g.probe()], inner(g, spec, False)))
@@ -195,7 +223,7 @@ def random_shapes(n, stream):
         def stmt(depth, in_loop):
             if depth == 0 or r.random() < 0.35:
                 return g.simple(r.choice(SIMPLE + ["probe", "probe"]), in_loop)
-            kind = r.choice(["if", "if", "if", "while", "for", "with", "try_except", "try_finally", "try_full"])
+            kind = r.choice(["if", "if", "if", "while", "for", "with", "with_quiet", "try_except", "try_finally", "try_full"])
             if kind == "if":
                 extra = (r.choice(CONDS), block(depth - 1, in_loop, 2)) if r.random() < 0.25 else None
                 return g.compound("if", r.choice(CONDS), block(depth - 1, in_loop, 2), block(depth - 1, in_loop, 2) if r.random() < 0.5 else None, extra)
@@ -203,8 +231,8 @@ def random_shapes(n, stream):
                 return g.compound("while", r.choice(CONDS), block(depth - 1, True, 2), block(depth - 1, in_loop, 1) if r.random() < 0.3 else None)
             if kind == "for":
                 return g.compound("for", r.choice(FOR_ITERS), block(depth - 1, True, 2), block(depth - 1, in_loop, 1) if r.random() < 0.3 else None)
-            if kind == "with":
-                return g.compound("with", None, block(depth - 1, in_loop, 2))
+            if kind in ("with", "with_quiet"):
+                return g.compound(kind, None, block(depth - 1, in_loop, 2))
             # no break/continue in a finally block: inside a loop it swallows every exception, including the probe cap
             second = block(depth - 1, in_loop and kind != "try_finally", 1) if r.random() < 0.5 else None
             return g.compound(kind, None, block(depth - 1, in_loop, 2), second)
@@ -223,6 +251,7 @@ POINTLESS = ["[t(1) for _ in range(2)]", "[0 for _ in range(2) if t(2)]", "[0 fo
              "any(t(k) for k in it)", "_ = t(1)", "_ = [t(2)]", "x = t(3)", "x = [t(4) for _ in it]", "x: int = t(5)", "x = y = t(6)", "x, y = t(7), t(8)",
              "await_free = 1", "it.append(t(9))", "it[0:0] = [t(1)]", "del it[:]", "it += [t(2)]", "c1 = t(3)", "global_name = t(4)", "lambda: 0", "...",
              "None", "[] + [t(5)]", "dict(a=t(6))", "bool(t(7))", "int(str(t(8)))", "range(t(9))", "iter([t(1)])", "next(iter([t(2)]))", "type(t(3))",
+             "(1, 2, 3)[0:2:t(1)]", "it[::t(2) or 1]", "it[t(3):]", "helper_if(c1)", "helper_try(c1)", "helper_with(c1)", "x = helper_if(c2)", "[helper_if(c1)]",
              "'%s' % t(4)", "'{}'.format(t(5))", "b'' or t(6)", "(lambda v: v)(t(7))", "[t(8)][0]", "{1: t(9)}[1]", "(t(1), t(2))[1]", "t(3) if t(4) else t(5)"]
 
 
